@@ -126,7 +126,7 @@ _PENDING = "check not built yet in this revision (model/theorems under construct
 CHECKS["C08"] = {
     "text": "25 schema theorems, one per documented form (swap, regroup both ways, fold, factor like terms, distribute both orders, a/b, a-b both ways, x^a*x^b incl. implicit exponents, move addend, divide coefficient) and per documented non-applicable form, each universally quantified over sub-expressions, coefficients, variables, exponents, identities and the surrounding context. Correspondence: schema instances with random parameters in random contexts, real rule applied at the instance node, result compared up to AC with a result instantiated independently in the harness.",
     "design_ref": "DESIGN.md 3/C08",
-    "note": COMMON_NOTE,
+    "note": COMMON_NOTE + SRC_NOTE + "Non-applicability to unlike terms is proved for positive integer coefficients; one open known finding: unlike terms with equal coefficients in (0,1) are accepted by the factor-out rule (C08-factor-out-equal-fractional-coefficients, witness replayed on every run).",
     "technique": "Lean 4 proof (schema theorems over the rule model) + independently instantiated schema correspondence",
 }
 
